@@ -43,6 +43,7 @@ let rec kind_of (s : string) : kind =
   | 'T' -> KTuple (nat_of_int (int_of_string (String.sub s 1 (String.length s - 1))))
   | 'R' -> KReal | 'I' -> KInt | 'B' -> KBool | 'S' -> KString | 'V' -> KRealVec | 'K' -> KBlock
   | 'U' -> KSize | 'L' -> KLong | 'J' -> KIntVec | 'W' -> KWordVec
+  | 'Y' -> KTupleVec (nat_of_int (int_of_string (String.sub s 1 (String.length s - 1))))
   | 'N' -> KRealVecN (nat_of_int (int_of_string (String.sub s 1 (String.length s - 1))))
   | _ -> failwith "kind"
 
@@ -83,6 +84,7 @@ let value_str = function
   | VInt z -> z_str z
   | VInts l -> "[" ^ String.concat ";" (List.map z_str l) ^ "]"
   | VWords l -> "[" ^ String.concat ";" (List.map hex l) ^ "]"
+  | VTuples l -> "[" ^ String.concat "|" (List.map (fun t -> String.concat ";" (List.map (fun d -> Printf.sprintf "%h" (float_of_dec d)) t)) l) ^ "]"
   | VBool b -> if b then "1" else "0"
   | VString s -> "s" ^ hex s
   | VReals l -> "[" ^ String.concat ";" (List.map (fun d -> Printf.sprintf "%h" (float_of_dec d)) l) ^ "]"
